@@ -146,6 +146,26 @@ class Eval:
     def expr(self, ref, **kw):
         return self.flow.expr(ref)
 
+    def _has_phi(self, e, depth=0):
+        if not isinstance(e, tuple) or depth > 6:
+            return False
+        if e and e[0] == "phi":
+            return True
+        return any(self._has_phi(x, depth + 1) for x in e if isinstance(x, tuple))
+
+    def _concretise(self, e, depth=0):
+        if not isinstance(e, tuple) or depth > 6:
+            return e
+        if e and e[0] == "phi" and len(e) == 2:
+            k = av_single(self.val("%%%d" % e[1]))
+            return ("c", k) if k is not None else e
+        if e and e[0] == "bin" and len(e) == 4:
+            a, b = self._concretise(e[2], depth + 1), self._concretise(e[3], depth + 1)
+            if a[0] == "c" and b[0] == "c" and isinstance(a[1], int) and isinstance(b[1], int) and e[1] in ("add", "sub"):
+                return ("c", a[1] + b[1] if e[1] == "add" else a[1] - b[1])
+            return (e[0], e[1], a, b)
+        return tuple(self._concretise(x, depth + 1) if isinstance(x, tuple) else x for x in e)
+
     def path_expr(self, ref):
         """expression of `ref` with phis replaced by the value that reached them on this path"""
         for _ in range(8):
@@ -266,6 +286,15 @@ class Eval:
                 v = self.facts.get(("M", pe))
             if v is None:
                 v = self.flow.hooks.load_value(pe, self)
+            if v is None and self._has_phi(pe):
+                # an index / address component that is a known constant on this path (a loop counter): ary[i] with i == 2 is ary[2]
+                pe3 = self._concretise(pe)
+                if pe3 != pe:
+                    v = self.flow.hooks.load_override(pe3, self)
+                    if v is None:
+                        v = self.facts.get(("M", pe3))
+                    if v is None:
+                        v = self.flow.hooks.load_value(pe3, self)
             if v is None and pe[0] in ("phi", "select"):
                 # the address was chosen on this path (p = c ? &a : &b): look the cell up under the address actually taken
                 pe2 = self.path_expr(d["ptr"])
